@@ -276,6 +276,22 @@ func nC10vals(cfg c10cfg) int {
 	return len(c10vals)
 }
 
+// wrapStore wraps the errors of a store's Value calls (errors.Is still finds store.ErrNotFound in them).
+type wrapStore struct{ store.Store }
+type wrapRead struct{ store.ReadTxn }
+type wrapWrite struct{ store.WriteTxn }
+
+func wrapErr(v interface{}, err error) (interface{}, error) {
+	if err != nil {
+		return v, fmt.Errorf("value lookup: %w", err)
+	}
+	return v, nil
+}
+func (w wrapStore) Read(id string) store.ReadTxn   { return wrapRead{w.Store.Read(id)} }
+func (w wrapStore) Write(id string) store.WriteTxn { return wrapWrite{w.Store.Write(id)} }
+func (r wrapRead) Value() (interface{}, error)     { return wrapErr(r.ReadTxn.Value()) }
+func (r wrapWrite) Value() (interface{}, error)    { return wrapErr(r.WriteTxn.Value()) }
+
 func newC10World(cfg c10cfg) (*c10world, error) {
 	w := &c10world{cfg: cfg, base: "test.r."}
 	if cfg.place == "nested" {
@@ -293,6 +309,10 @@ func newC10World(cfg c10cfg) (*c10world, error) {
 			bs.SetType([]interface{}(nil))
 		}
 		w.st = bs
+	case "wrapmock":
+		// a store that adds context to its errors: "not found" arrives wrapped (as the Store contract allows)
+		w.st = wrapStore{mockstore.NewStore()}
+		w.clean = func() {}
 	default:
 		w.st = mockstore.NewStore()
 		w.clean = func() {}
@@ -771,6 +791,12 @@ func RunC10(c *core.Ctx) {
 					cfgs = append(cfgs, c10cfg{typ: typ, trans: tr, def: def, backend: be})
 					if be == "mock" && !def {
 						cfgs = append(cfgs, c10cfg{typ: typ, trans: tr, backend: be, place: "nested"})
+					}
+					if be == "mock" && def && (tr == "none" || tr == "id") {
+						// (with a default: without one the handler answers a wrapped not-found error with
+						// system.internalError - get does not report the resource as missing then, and the property
+						// speaks of resources that get reports as missing)
+						cfgs = append(cfgs, c10cfg{typ: typ, trans: tr, def: def, backend: "wrapmock"})
 					}
 				}
 			}
